@@ -17,7 +17,7 @@ vars == <<l, prev>>
 
 Known == {"Reset", "Enc", "Dec", "DecTag", "Packet", "CheckTag", "DecBig", "Perm", "Garbage", "Hash", "HInit", "HReinit",
           "HUpdate", "HFinal", "HFree", "Hmac", "HmInit", "HmReinit", "HmUpdate", "HmFinal", "HmFree", "Hkdf", "HkExtract",
-          "HkExpand", "HkFree", "Pbkdf2", "PInit", "PGen", "PFeed", "PReseed", "PLimit", "PFree", "Clean", "Trng"}
+          "HkExpand", "HkFree", "Pbkdf2", "PInit", "PGen", "PFeed", "PReseed", "PLimit", "PFree", "Clean", "Trng", "DeadState"}
 
 None == [e |-> "none"]
 
